@@ -53,6 +53,9 @@ type Op struct {
 	// SelfSend: from inside its Stopped handler the temp actor sends a message to its own PID.  The
 	// actor is unregistered by then, so this is a send to a PID without a registered actor: one dead letter.
 	SelfSend bool `json:"self_send,omitempty"`
+	// Die: the temp actor has no restart budget and is crashed to death instead of being poisoned: it
+	// stops all the same, and ActorStoppedEvent is published for it
+	Die bool `json:"die,omitempty"`
 	// send
 	Tgt string `json:"tgt,omitempty"` // nil never stopped foreign live
 	Snd int    `json:"snd,omitempty"` // 0 = no sender
@@ -133,6 +136,8 @@ func (s *subscriber) receive(c *actor.Context) {
 		r = rec{kind: "life", text: fmt.Sprintf("restarted(%d):%s", m.Restarts, m.PID.GetID())}
 	case actor.ActorDuplicateIdEvent:
 		r = rec{kind: "life", text: "duplicate:" + m.PID.GetID()}
+	case actor.ActorMaxRestartsExceededEvent:
+		r = rec{kind: "life", text: "maxrestarts:" + m.PID.GetID()}
 	case actor.ActorInitializedEvent:
 		return // not among the events the property lists
 	case actor.DeadLetterEvent:
@@ -424,7 +429,12 @@ func run(c Case, c09 bool) (feat map[string]int, err error) {
 					m(c)
 				}
 			}
-			tp := e.SpawnFunc(f, "tmp", actor.WithID(fmt.Sprint(h.tmpN)), actor.WithRestartDelay(0))
+			die := op.Die && !op.Crash
+			topts := []actor.OptFunc{actor.WithID(fmt.Sprint(h.tmpN)), actor.WithRestartDelay(0)}
+			if die {
+				topts = append(topts, actor.WithMaxRestarts(0))
+			}
+			tp := e.SpawnFunc(f, "tmp", topts...)
 			if withChild {
 				// the child is started inside the parent's Started handler, i.e. before the parent's own event
 				h.add(exp{kind: "life", text: "started:" + id + "/kid/0"})
@@ -463,10 +473,25 @@ func run(c Case, c09 bool) (feat map[string]int, err error) {
 				h.add(exp{kind: "life", text: "duplicate:" + id})
 				h.note("life-duplicate")
 			}
-			select {
-			case <-e.Poison(tp).Done():
-			case <-time.After(wait):
-				return nil, fmt.Errorf("%w: poison of a temp actor not done", errInconclusive)
+			if die {
+				e.Send(tp, "crash")
+				deadline := time.Now().Add(wait)
+				for e.Registry.GetPID("tmp", fmt.Sprint(h.tmpN)) != nil {
+					if time.Now().After(deadline) {
+						return nil, fmt.Errorf("%w: a temp actor without restart budget is still registered after it crashed", errInconclusive)
+					}
+					time.Sleep(200 * time.Microsecond)
+				}
+				h.note("life-death-by-max-restarts")
+			} else {
+				select {
+				case <-e.Poison(tp).Done():
+				case <-time.After(wait):
+					return nil, fmt.Errorf("%w: poison of a temp actor not done", errInconclusive)
+				}
+			}
+			if die {
+				h.add(exp{kind: "life", text: "maxrestarts:" + id})
 			}
 			if withChild {
 				h.add(exp{kind: "life", text: "stopped:" + id + "/kid/0"}) // children first
@@ -519,6 +544,14 @@ func run(c Case, c09 bool) (feat map[string]int, err error) {
 				h.add(exp{kind: "rm", tgt: tgt, snd: snd, msg: msg})
 			case "live":
 				tgt = h.live
+			case "namesake":
+				// a PID on ANOTHER address whose id equals the id of an actor that lives here: it names the
+				// actor over there, not ours.  Without a remote: one EngineRemoteMissingEvent, nothing delivered.
+				if isStop || op.Via == "local" {
+					return nil, nil
+				}
+				tgt = actor.NewPID("other:4000", h.live.ID)
+				h.add(exp{kind: "rm", tgt: tgt, snd: snd, msg: msg})
 			default:
 				return nil, nil
 			}
@@ -567,6 +600,18 @@ func run(c Case, c09 bool) (feat map[string]int, err error) {
 					return nil, fmt.Errorf("op %d: the context of a %s for a %s target never became done", oi, op.Via, op.Tgt)
 				}
 			}
+			if op.Tgt == "namesake" {
+				// a probe sent directly to the local actor afterwards: it must be the next thing it gets
+				e.Send(h.live, "probe-after-namesake")
+				select {
+				case got := <-h.liveGot:
+					if got != "probe-after-namesake" {
+						return nil, fmt.Errorf("op %d: a message for %v (another address) was delivered to the local actor with the same id: it got %v", oi, tgt, got)
+					}
+				case <-time.After(wait):
+					return nil, fmt.Errorf("%w: live control actor got nothing", errInconclusive)
+				}
+			}
 			if op.Tgt == "live" {
 				select {
 				case got := <-h.liveGot:
@@ -611,7 +656,7 @@ func run(c Case, c09 bool) (feat map[string]int, err error) {
 			h.add(exp{kind: "life", text: "stopped:" + s.pid.ID})
 			h.note("successor-under-the-same-id-subscribed-from-Stopped")
 		case "stopsub":
-			if !c09 || s.gone {
+			if s.gone {
 				continue
 			}
 			// the subscriber leaves without unsubscribing; flush it first so that its log is complete
@@ -740,7 +785,7 @@ func (h *harness) compare(i int, log []rec, want []exp) error {
 func genCase(t *rapid.T, c09 bool) Case {
 	c := Case{Subs: rapid.IntRange(1, 4).Draw(t, "subs")}
 	n := rapid.IntRange(1, 14).Draw(t, "nops")
-	kinds := []string{"sub", "sub", "sub", "unsub", "unsub", "bcast", "bcast", "bcast", "burst", "burst", "life", "life", "heir"}
+	kinds := []string{"sub", "sub", "sub", "unsub", "unsub", "bcast", "bcast", "bcast", "burst", "burst", "life", "life", "heir", "stopsub"}
 	if c09 {
 		kinds = []string{"sub", "sub", "unsub", "bcast", "send", "send", "send", "send", "stopsub", "life", "heir"}
 	}
@@ -760,8 +805,9 @@ func genCase(t *rapid.T, c09 bool) Case {
 			op.Restop = rapid.IntRange(0, 2).Draw(t, "restop") == 0
 			op.DupChild = rapid.IntRange(0, 2).Draw(t, "dupchild") == 0
 			op.SelfSend = rapid.IntRange(0, 2).Draw(t, "selfsend") == 0
+			op.Die = rapid.IntRange(0, 3).Draw(t, "die") == 0
 		case "send":
-			op.Tgt = rapid.SampledFrom([]string{"nil", "never", "never", "stopped", "stopped", "foreign", "foreign", "live"}).Draw(t, "tgt")
+			op.Tgt = rapid.SampledFrom([]string{"nil", "never", "never", "stopped", "stopped", "foreign", "foreign", "live", "namesake"}).Draw(t, "tgt")
 			op.Snd = rapid.IntRange(0, 3).Draw(t, "snd")
 			op.Msg = rapid.IntRange(0, 11).Draw(t, "msg")
 			switch op.Tgt {
